@@ -11,10 +11,10 @@ open Jap.NS
 
 theorem baseSeg_plusSeg (s : SKey) : baseSeg (plusSeg s) = s := by
   cases s with
-  | mk m n => simp [baseSeg, plusSeg, String.toList_ofList, String.ofList_toList]
+  | mk m n => simp [baseSeg, plusSeg, String.ofList_toList]
 
 theorem isPlusSeg_plusSeg (s : SKey) : isPlusSeg (plusSeg s) = true := by
-  simp [isPlusSeg, plusSeg, String.toList_ofList]
+  simp [isPlusSeg, plusSeg]
 
 theorem base_plus : ∀ k : Key, base (plus k) = k
   | [] => rfl
